@@ -1,9 +1,10 @@
 """Property id -> check function."""
-from . import props_glr
+from . import props_glr, props_tbl
 
 CHECKS = {
     "C01": props_glr.c01,
     "C02": props_glr.c02,
     "C03": props_glr.c03,
+    "C05": props_tbl.c05,
     "C17": props_glr.c17,
 }
